@@ -53,6 +53,17 @@ func genFrame(r *core.Rand, own bool) (frame, bool) {
 
 // malformedFrame draws a frame that must make any datagram containing it fail.
 func malformedFrame(r *core.Rand) []byte {
+	if r.Chance(1, 40) {
+		// an SDES frame of N >= 256 well-formed chunks whose count field says N mod 256 (a count
+		// compared in 8 bits would agree), and the same for a BYE-like count of sources in an RR
+		n := r.Pick(256, 257, 258, 270, 287, 512, 513, 543)
+		b := []byte{0x80 | byte(n%256), 202, 0, 0}
+		for i := 0; i < n; i++ {
+			b = append(b, byte(i>>8), byte(i), r.U8(), r.U8(), 1, 2, 'a', 'b', 0, 0, 0, 0)
+		}
+		gen.FitLength(b)
+		return b
+	}
 	switch r.Intn(6) {
 	case 0: // bad version, arbitrary rest
 		b := r.Bytes(4 * (1 + r.Intn(4)))
